@@ -150,6 +150,12 @@ let rec nth_error l = function
            | [] -> None
            | _ :: l0 -> nth_error l0 n1)
 
+(** val rev : 'a1 list -> 'a1 list **)
+
+let rec rev = function
+| [] -> []
+| x :: l' -> app (rev l') (x :: [])
+
 (** val rev_append : 'a1 list -> 'a1 list -> 'a1 list **)
 
 let rec rev_append l l' =
@@ -217,6 +223,12 @@ let rec skipn n0 l =
   | S n1 -> (match l with
              | [] -> []
              | _ :: l0 -> skipn n1 l0)
+
+(** val repeat : 'a1 -> nat -> 'a1 list **)
+
+let rec repeat x = function
+| O -> []
+| S k -> x :: (repeat x k)
 
 type positive =
 | XI of positive
@@ -294,6 +306,13 @@ module Coq_Pos =
   | XI p -> XI (XO p)
   | XO p -> XI (pred_double p)
   | XH -> XH
+
+  (** val pred_N : positive -> n **)
+
+  let pred_N = function
+  | XI p -> Npos (XO p)
+  | XO p -> Npos (pred_double p)
+  | XH -> N0
 
   type mask = Pos.mask =
   | IsNul
@@ -557,6 +576,24 @@ module Coq_Pos =
              | XO _ -> N0
              | _ -> Npos XH)
 
+  (** val ldiff : positive -> positive -> n **)
+
+  let rec ldiff p q0 =
+    match p with
+    | XI p0 ->
+      (match q0 with
+       | XI q1 -> coq_Ndouble (ldiff p0 q1)
+       | XO q1 -> coq_Nsucc_double (ldiff p0 q1)
+       | XH -> Npos (XO p0))
+    | XO p0 ->
+      (match q0 with
+       | XI q1 -> coq_Ndouble (ldiff p0 q1)
+       | XO q1 -> coq_Ndouble (ldiff p0 q1)
+       | XH -> Npos p)
+    | XH -> (match q0 with
+             | XO _ -> Npos XH
+             | _ -> N0)
+
   (** val coq_lxor : positive -> positive -> n **)
 
   let rec coq_lxor p q0 =
@@ -603,6 +640,12 @@ module N =
   let double = function
   | N0 -> N0
   | Npos p -> Npos (XO p)
+
+  (** val succ_pos : n -> positive **)
+
+  let succ_pos = function
+  | N0 -> XH
+  | Npos p -> Coq_Pos.succ p
 
   (** val add : n -> n -> n **)
 
@@ -774,6 +817,15 @@ module N =
                  | N0 -> N0
                  | Npos q0 -> Coq_Pos.coq_land p q0)
 
+  (** val ldiff : n -> n -> n **)
+
+  let ldiff n0 m =
+    match n0 with
+    | N0 -> N0
+    | Npos p -> (match m with
+                 | N0 -> n0
+                 | Npos q0 -> Coq_Pos.ldiff p q0)
+
   (** val coq_lxor : n -> n -> n **)
 
   let coq_lxor n0 m =
@@ -805,6 +857,25 @@ module N =
 
 type ascii =
 | Ascii of bool * bool * bool * bool * bool * bool * bool * bool
+
+(** val eqb0 : ascii -> ascii -> bool **)
+
+let eqb0 a b =
+  let Ascii (a0, a1, a2, a3, a4, a5, a6, a7) = a in
+  let Ascii (b0, b1, b2, b3, b4, b5, b6, b7) = b in
+  if if if if if if if eqb a0 b0 then eqb a1 b1 else false
+                 then eqb a2 b2
+                 else false
+              then eqb a3 b3
+              else false
+           then eqb a4 b4
+           else false
+        then eqb a5 b5
+        else false
+     then eqb a6 b6
+     else false
+  then eqb a7 b7
+  else false
 
 (** val n_of_digits : bool list -> n **)
 
@@ -1092,6 +1163,17 @@ module Z =
   let rem a b =
     snd (quotrem a b)
 
+  (** val even : z -> bool **)
+
+  let even = function
+  | Z0 -> true
+  | Zpos p -> (match p with
+               | XO _ -> true
+               | _ -> false)
+  | Zneg p -> (match p with
+               | XO _ -> true
+               | _ -> false)
+
   (** val ggcd : z -> z -> z * (z * z) **)
 
   let ggcd a b =
@@ -1115,13 +1197,60 @@ module Z =
        | Zneg b0 ->
          let (g, p) = Coq_Pos.ggcd a0 b0 in
          let (aa, bb) = p in ((Zpos g), ((Zneg aa), (Zneg bb))))
+
+  (** val coq_land : z -> z -> z **)
+
+  let coq_land a b =
+    match a with
+    | Z0 -> Z0
+    | Zpos a0 ->
+      (match b with
+       | Z0 -> Z0
+       | Zpos b0 -> of_N (Coq_Pos.coq_land a0 b0)
+       | Zneg b0 -> of_N (N.ldiff (Npos a0) (Coq_Pos.pred_N b0)))
+    | Zneg a0 ->
+      (match b with
+       | Z0 -> Z0
+       | Zpos b0 -> of_N (N.ldiff (Npos b0) (Coq_Pos.pred_N a0))
+       | Zneg b0 ->
+         Zneg (N.succ_pos (N.coq_lor (Coq_Pos.pred_N a0) (Coq_Pos.pred_N b0))))
  end
+
+(** val zeq_bool : z -> z -> bool **)
+
+let zeq_bool x y =
+  match Z.compare x y with
+  | Eq -> true
+  | _ -> false
 
 type string =
 | EmptyString
 | String of ascii * string
 
+(** val eqb1 : string -> string -> bool **)
+
+let rec eqb1 s1 s2 =
+  match s1 with
+  | EmptyString ->
+    (match s2 with
+     | EmptyString -> true
+     | String (_, _) -> false)
+  | String (c1, s1') ->
+    (match s2 with
+     | EmptyString -> false
+     | String (c2, s2') -> if eqb0 c1 c2 then eqb1 s1' s2' else false)
+
 type q = { qnum : z; qden : positive }
+
+(** val qcompare : q -> q -> comparison **)
+
+let qcompare p q0 =
+  Z.compare (Z.mul p.qnum (Zpos q0.qden)) (Z.mul q0.qnum (Zpos p.qden))
+
+(** val qeq_bool : q -> q -> bool **)
+
+let qeq_bool x y =
+  zeq_bool (Z.mul x.qnum (Zpos y.qden)) (Z.mul y.qnum (Zpos x.qden))
 
 (** val qle_bool : q -> q -> bool **)
 
@@ -2936,8 +3065,8 @@ let ma_bits =
     XH)) :: (((S (S (S (S (S O))))), N0) :: (((S (S (S (S (S (S O)))))),
     (Npos (XI XH))) :: (((S (S (S (S (S (S O)))))), (Npos XH)) :: (((S (S (S
     (S (S (S O)))))), N0) :: (((S (S (S (S (S (S (S O))))))), (Npos (XI
-    XH))) :: (((S (S (S (S (S (S (S O))))))), (Npos XH)) :: (((S (S (S (S (S
-    (S (S O))))))), (Npos (XO XH))) :: (((S (S (S (S (S (S (S O))))))),
+    XH))) :: (((S (S (S (S (S (S (S O))))))), (Npos (XO XH))) :: (((S (S (S
+    (S (S (S (S O))))))), (Npos XH)) :: (((S (S (S (S (S (S (S O))))))),
     N0) :: (((S (S (S (S (S (S O)))))), (Npos (XO XH))) :: (((S (S (S (S (S
     (S O)))))), N0) :: [])))))))))))))
 
@@ -3936,6 +4065,312 @@ let country_default =
     ((Ascii (true, true, true, true, true, true, false, false)),
     EmptyString)))
 
+(** val header_cols : ((string * string) * nat) list **)
+
+let header_cols =
+  ((EmptyString, (String ((Ascii (true, false, false, true, false, false,
+    true, false)), (String ((Ascii (true, true, false, false, false, false,
+    true, false)), (String ((Ascii (true, false, false, false, false, false,
+    true, false)), (String ((Ascii (true, true, true, true, false, false,
+    true, false)), EmptyString))))))))), (S (S (S (S (S (S
+    O))))))) :: (((EmptyString, (String ((Ascii (false, true, false, false,
+    true, false, true, false)), (String ((Ascii (true, true, true, false,
+    false, false, true, false)), EmptyString))))), (S (S
+    O))) :: (((EmptyString, (String ((Ascii (true, true, false, false, true,
+    false, true, false)), (String ((Ascii (true, false, false, false, true,
+    false, true, false)), (String ((Ascii (true, true, true, false, true,
+    false, true, false)), (String ((Ascii (true, true, false, true, false,
+    false, true, false)), EmptyString))))))))), (S (S (S (S
+    O))))) :: (((EmptyString, (String ((Ascii (true, true, true, false, true,
+    false, true, false)), EmptyString))), (S O)) :: (((EmptyString, (String
+    ((Ascii (true, true, false, false, false, false, true, false)), (String
+    ((Ascii (true, false, false, false, false, false, true, false)), (String
+    ((Ascii (false, false, true, true, false, false, true, false)), (String
+    ((Ascii (false, false, true, true, false, false, true, false)), (String
+    ((Ascii (true, true, false, false, true, false, true, false)), (String
+    ((Ascii (true, false, false, true, false, false, true, false)), (String
+    ((Ascii (true, true, true, false, false, false, true, false)), (String
+    ((Ascii (false, true, true, true, false, false, true, false)),
+    EmptyString))))))))))))))))), (S (S (S (S (S (S (S (S
+    O))))))))) :: (((EmptyString, (String ((Ascii (false, false, true, true,
+    false, false, true, false)), (String ((Ascii (true, false, false, false,
+    false, false, true, false)), (String ((Ascii (false, false, true, false,
+    true, false, true, false)), (String ((Ascii (true, false, false, true,
+    false, false, true, false)), (String ((Ascii (false, false, true, false,
+    true, false, true, false)), (String ((Ascii (true, false, true, false,
+    true, false, true, false)), (String ((Ascii (false, false, true, false,
+    false, false, true, false)), (String ((Ascii (true, false, true, false,
+    false, false, true, false)), EmptyString))))))))))))))))), (S (S (S (S (S
+    (S (S (S (S O)))))))))) :: (((EmptyString, (String ((Ascii (false, false,
+    true, true, false, false, true, false)), (String ((Ascii (true, true,
+    true, true, false, false, true, false)), (String ((Ascii (false, true,
+    true, true, false, false, true, false)), (String ((Ascii (true, true,
+    true, false, false, false, true, false)), (String ((Ascii (true, false,
+    false, true, false, false, true, false)), (String ((Ascii (false, false,
+    true, false, true, false, true, false)), (String ((Ascii (true, false,
+    true, false, true, false, true, false)), (String ((Ascii (false, false,
+    true, false, false, false, true, false)), (String ((Ascii (true, false,
+    true, false, false, false, true, false)), EmptyString))))))))))))))))))),
+    (S (S (S (S (S (S (S (S (S (S (S O)))))))))))) :: (((EmptyString, (String
+    ((Ascii (false, false, true, false, false, false, true, false)), (String
+    ((Ascii (true, false, false, true, false, false, true, false)), (String
+    ((Ascii (true, true, false, false, true, false, true, false)), (String
+    ((Ascii (false, false, true, false, true, false, true, false)),
+    EmptyString))))))))), (S (S (S (S (S O)))))) :: (((EmptyString, (String
+    ((Ascii (true, false, false, false, false, false, true, false)), (String
+    ((Ascii (false, false, true, true, false, false, true, false)), (String
+    ((Ascii (false, false, true, false, true, false, true, false)), (String
+    ((Ascii (false, false, false, false, false, true, false, false)), (String
+    ((Ascii (false, true, false, false, false, false, true, false)),
+    EmptyString))))))))))), (S (S (S (S (S O)))))) :: ((((String ((Ascii
+    (true, false, false, false, false, true, true, false)), (String ((Ascii
+    (false, false, true, true, false, true, true, false)), (String ((Ascii
+    (false, false, true, false, true, true, true, false)), (String ((Ascii
+    (true, false, false, true, false, true, true, false)), (String ((Ascii
+    (false, false, true, false, true, true, true, false)), (String ((Ascii
+    (true, false, true, false, true, true, true, false)), (String ((Ascii
+    (false, false, true, false, false, true, true, false)), (String ((Ascii
+    (true, false, true, false, false, true, true, false)),
+    EmptyString)))))))))))))))), (String ((Ascii (true, false, false, false,
+    false, false, true, false)), (String ((Ascii (false, false, true, true,
+    false, false, true, false)), (String ((Ascii (false, false, true, false,
+    true, false, true, false)), (String ((Ascii (false, false, false, false,
+    false, true, false, false)), (String ((Ascii (true, true, true, false,
+    false, false, true, false)), EmptyString))))))))))), (S (S (S (S (S
+    O)))))) :: ((((String ((Ascii (true, false, false, false, false, true,
+    true, false)), (String ((Ascii (false, false, true, true, false, true,
+    true, false)), (String ((Ascii (false, false, true, false, true, true,
+    true, false)), (String ((Ascii (true, false, false, true, false, true,
+    true, false)), (String ((Ascii (false, false, true, false, true, true,
+    true, false)), (String ((Ascii (true, false, true, false, true, true,
+    true, false)), (String ((Ascii (false, false, true, false, false, true,
+    true, false)), (String ((Ascii (true, false, true, false, false, true,
+    true, false)), EmptyString)))))))))))))))), (String ((Ascii (true, false,
+    false, false, false, false, true, false)), (String ((Ascii (false, false,
+    true, true, false, false, true, false)), (String ((Ascii (false, false,
+    true, false, true, false, true, false)), (String ((Ascii (false, false,
+    false, false, false, true, false, false)), (String ((Ascii (true, true,
+    false, false, true, false, true, false)), EmptyString))))))))))), (S (S
+    (S (S (S O)))))) :: ((((String ((Ascii (true, false, false, false, false,
+    true, true, false)), (String ((Ascii (false, false, true, true, false,
+    true, true, false)), (String ((Ascii (false, false, true, false, true,
+    true, true, false)), (String ((Ascii (true, false, false, true, false,
+    true, true, false)), (String ((Ascii (false, false, true, false, true,
+    true, true, false)), (String ((Ascii (true, false, true, false, true,
+    true, true, false)), (String ((Ascii (false, false, true, false, false,
+    true, true, false)), (String ((Ascii (true, false, true, false, false,
+    true, true, false)), EmptyString)))))))))))))))), (String ((Ascii (false,
+    true, false, false, false, false, true, false)), (String ((Ascii (true,
+    false, false, false, false, false, true, false)), (String ((Ascii (false,
+    true, false, false, true, false, true, false)), (String ((Ascii (true,
+    true, true, true, false, false, true, false)), EmptyString))))))))), (S
+    (S (S (S O))))) :: (((EmptyString, (String ((Ascii (false, true, true,
+    false, true, false, true, false)), (String ((Ascii (false, true, false,
+    false, true, false, true, false)), (String ((Ascii (true, false, false,
+    false, false, false, true, false)), (String ((Ascii (false, false, true,
+    false, true, false, true, false)), (String ((Ascii (true, false, true,
+    false, false, false, true, false)), EmptyString))))))))))), (S (S (S (S
+    (S O)))))) :: (((EmptyString, (String ((Ascii (false, false, true, false,
+    true, false, true, false)), (String ((Ascii (false, true, false, false,
+    true, false, true, false)), (String ((Ascii (true, true, false, true,
+    false, false, true, false)), EmptyString))))))), (S (S (S
+    O)))) :: (((EmptyString, (String ((Ascii (false, false, false, true,
+    false, false, true, false)), (String ((Ascii (false, false, true, false,
+    false, false, true, false)), (String ((Ascii (true, true, true, false,
+    false, false, true, false)), EmptyString))))))), (S (S (S
+    O)))) :: (((EmptyString, (String ((Ascii (true, true, true, false, false,
+    false, true, false)), (String ((Ascii (true, true, false, false, true,
+    false, true, false)), (String ((Ascii (false, false, false, false, true,
+    false, true, false)), EmptyString))))))), (S (S (S O)))) :: ((((String
+    ((Ascii (true, true, false, false, true, true, true, false)), (String
+    ((Ascii (false, false, false, false, true, true, true, false)), (String
+    ((Ascii (true, false, true, false, false, true, true, false)), (String
+    ((Ascii (true, false, true, false, false, true, true, false)), (String
+    ((Ascii (false, false, true, false, false, true, true, false)),
+    EmptyString)))))))))), (String ((Ascii (false, false, true, false, true,
+    false, true, false)), (String ((Ascii (true, false, false, false, false,
+    false, true, false)), (String ((Ascii (true, true, false, false, true,
+    false, true, false)), EmptyString))))))), (S (S (S O)))) :: ((((String
+    ((Ascii (true, true, false, false, true, true, true, false)), (String
+    ((Ascii (false, false, false, false, true, true, true, false)), (String
+    ((Ascii (true, false, true, false, false, true, true, false)), (String
+    ((Ascii (true, false, true, false, false, true, true, false)), (String
+    ((Ascii (false, false, true, false, false, true, true, false)),
+    EmptyString)))))))))), (String ((Ascii (true, false, false, true, false,
+    false, true, false)), (String ((Ascii (true, false, false, false, false,
+    false, true, false)), (String ((Ascii (true, true, false, false, true,
+    false, true, false)), EmptyString))))))), (S (S (S O)))) :: ((((String
+    ((Ascii (true, true, false, false, true, true, true, false)), (String
+    ((Ascii (false, false, false, false, true, true, true, false)), (String
+    ((Ascii (true, false, true, false, false, true, true, false)), (String
+    ((Ascii (true, false, true, false, false, true, true, false)), (String
+    ((Ascii (false, false, true, false, false, true, true, false)),
+    EmptyString)))))))))), (String ((Ascii (true, false, true, true, false,
+    false, true, false)), (String ((Ascii (true, false, false, false, false,
+    false, true, false)), (String ((Ascii (true, true, false, false, false,
+    false, true, false)), (String ((Ascii (false, false, false, true, false,
+    false, true, false)), EmptyString))))))))), (S (S (S (S
+    O))))) :: ((((String ((Ascii (true, false, false, false, false, true,
+    true, false)), (String ((Ascii (false, true, true, true, false, true,
+    true, false)), (String ((Ascii (true, true, true, false, false, true,
+    true, false)), (String ((Ascii (false, false, true, true, false, true,
+    true, false)), (String ((Ascii (true, false, true, false, false, true,
+    true, false)), (String ((Ascii (true, true, false, false, true, true,
+    true, false)), EmptyString)))))))))))), (String ((Ascii (false, true,
+    false, false, true, false, true, false)), (String ((Ascii (false, false,
+    true, true, false, false, true, false)), (String ((Ascii (false, false,
+    true, true, false, false, true, false)), EmptyString))))))), (S (S (S
+    O)))) :: ((((String ((Ascii (true, false, false, false, false, true,
+    true, false)), (String ((Ascii (false, true, true, true, false, true,
+    true, false)), (String ((Ascii (true, true, true, false, false, true,
+    true, false)), (String ((Ascii (false, false, true, true, false, true,
+    true, false)), (String ((Ascii (true, false, true, false, false, true,
+    true, false)), (String ((Ascii (true, true, false, false, true, true,
+    true, false)), EmptyString)))))))))))), (String ((Ascii (false, false,
+    true, false, true, false, true, false)), (String ((Ascii (true, false,
+    false, false, false, false, true, false)), (String ((Ascii (false, true,
+    false, false, true, false, true, false)), EmptyString))))))), (S (S (S
+    O)))) :: ((((String ((Ascii (true, true, true, false, true, true, true,
+    false)), (String ((Ascii (true, false, true, false, false, true, true,
+    false)), (String ((Ascii (true, false, false, false, false, true, true,
+    false)), (String ((Ascii (false, false, true, false, true, true, true,
+    false)), (String ((Ascii (false, false, false, true, false, true, true,
+    false)), (String ((Ascii (true, false, true, false, false, true, true,
+    false)), (String ((Ascii (false, true, false, false, true, true, true,
+    false)), EmptyString)))))))))))))), (String ((Ascii (false, false, true,
+    false, true, false, true, false)), (String ((Ascii (true, false, true,
+    false, false, false, true, false)), (String ((Ascii (true, false, true,
+    true, false, false, true, false)), (String ((Ascii (false, false, false,
+    false, true, false, true, false)), EmptyString))))))))), (S (S (S (S (S
+    O)))))) :: ((((String ((Ascii (true, true, true, false, true, true, true,
+    false)), (String ((Ascii (true, false, true, false, false, true, true,
+    false)), (String ((Ascii (true, false, false, false, false, true, true,
+    false)), (String ((Ascii (false, false, true, false, true, true, true,
+    false)), (String ((Ascii (false, false, false, true, false, true, true,
+    false)), (String ((Ascii (true, false, true, false, false, true, true,
+    false)), (String ((Ascii (false, true, false, false, true, true, true,
+    false)), EmptyString)))))))))))))), (String ((Ascii (true, true, true,
+    false, true, false, true, false)), (String ((Ascii (false, true, true,
+    true, false, false, true, false)), (String ((Ascii (false, false, true,
+    false, false, false, true, false)), EmptyString))))))), (S (S (S
+    O)))) :: ((((String ((Ascii (true, true, true, false, true, true, true,
+    false)), (String ((Ascii (true, false, true, false, false, true, true,
+    false)), (String ((Ascii (true, false, false, false, false, true, true,
+    false)), (String ((Ascii (false, false, true, false, true, true, true,
+    false)), (String ((Ascii (false, false, false, true, false, true, true,
+    false)), (String ((Ascii (true, false, true, false, false, true, true,
+    false)), (String ((Ascii (false, true, false, false, true, true, true,
+    false)), EmptyString)))))))))))))), (String ((Ascii (true, true, true,
+    false, true, false, true, false)), (String ((Ascii (false, false, true,
+    false, false, false, true, false)), (String ((Ascii (false, true, false,
+    false, true, false, true, false)), EmptyString))))))), (S (S (S
+    O)))) :: ((((String ((Ascii (true, true, true, false, true, true, true,
+    false)), (String ((Ascii (true, false, true, false, false, true, true,
+    false)), (String ((Ascii (true, false, false, false, false, true, true,
+    false)), (String ((Ascii (false, false, true, false, true, true, true,
+    false)), (String ((Ascii (false, false, false, true, false, true, true,
+    false)), (String ((Ascii (true, false, true, false, false, true, true,
+    false)), (String ((Ascii (false, true, false, false, true, true, true,
+    false)), EmptyString)))))))))))))), (String ((Ascii (false, false, false,
+    true, false, false, true, false)), (String ((Ascii (true, false, true,
+    false, true, false, true, false)), (String ((Ascii (true, false, true,
+    true, false, false, true, false)), EmptyString))))))), (S (S (S
+    O)))) :: ((((String ((Ascii (true, true, true, false, true, true, true,
+    false)), (String ((Ascii (true, false, true, false, false, true, true,
+    false)), (String ((Ascii (true, false, false, false, false, true, true,
+    false)), (String ((Ascii (false, false, true, false, true, true, true,
+    false)), (String ((Ascii (false, false, false, true, false, true, true,
+    false)), (String ((Ascii (true, false, true, false, false, true, true,
+    false)), (String ((Ascii (false, true, false, false, true, true, true,
+    false)), EmptyString)))))))))))))), (String ((Ascii (false, false, false,
+    false, true, false, true, false)), (String ((Ascii (false, true, false,
+    false, true, false, true, false)), (String ((Ascii (true, false, true,
+    false, false, false, true, false)), (String ((Ascii (true, true, false,
+    false, true, false, true, false)), EmptyString))))))))), (S (S (S (S
+    O))))) :: ((((String ((Ascii (true, true, true, false, true, true, true,
+    false)), (String ((Ascii (true, false, true, false, false, true, true,
+    false)), (String ((Ascii (true, false, false, false, false, true, true,
+    false)), (String ((Ascii (false, false, true, false, true, true, true,
+    false)), (String ((Ascii (false, false, false, true, false, true, true,
+    false)), (String ((Ascii (true, false, true, false, false, true, true,
+    false)), (String ((Ascii (false, true, false, false, true, true, true,
+    false)), EmptyString)))))))))))))), (String ((Ascii (false, false, true,
+    false, true, false, true, false)), (String ((Ascii (false, true, false,
+    false, false, false, true, false)), EmptyString))))), (S (S
+    O))) :: ((((String ((Ascii (true, false, true, false, false, true, true,
+    false)), (String ((Ascii (false, false, false, true, true, true, true,
+    false)), (String ((Ascii (false, false, true, false, true, true, true,
+    false)), (String ((Ascii (false, true, false, false, true, true, true,
+    false)), (String ((Ascii (true, false, false, false, false, true, true,
+    false)), EmptyString)))))))))), (String ((Ascii (false, true, true,
+    false, true, false, true, false)), (String ((Ascii (false, false, false,
+    true, true, false, true, false)), EmptyString))))), (S (S
+    O))) :: ((((String ((Ascii (true, false, true, false, false, true, true,
+    false)), (String ((Ascii (false, false, false, true, true, true, true,
+    false)), (String ((Ascii (false, false, true, false, true, true, true,
+    false)), (String ((Ascii (false, true, false, false, true, true, true,
+    false)), (String ((Ascii (true, false, false, false, false, true, true,
+    false)), EmptyString)))))))))), (String ((Ascii (false, false, true,
+    false, false, false, true, false)), (String ((Ascii (false, true, true,
+    false, false, false, true, false)), EmptyString))))), (S (S
+    O))) :: ((((String ((Ascii (true, false, true, false, false, true, true,
+    false)), (String ((Ascii (false, false, false, true, true, true, true,
+    false)), (String ((Ascii (false, false, true, false, true, true, true,
+    false)), (String ((Ascii (false, true, false, false, true, true, true,
+    false)), (String ((Ascii (true, false, false, false, false, true, true,
+    false)), EmptyString)))))))))), (String ((Ascii (false, false, true,
+    false, true, false, true, false)), (String ((Ascii (true, true, false,
+    false, false, false, true, false)), EmptyString))))), (S (S
+    O))) :: ((((String ((Ascii (true, false, true, false, false, true, true,
+    false)), (String ((Ascii (false, false, false, true, true, true, true,
+    false)), (String ((Ascii (false, false, true, false, true, true, true,
+    false)), (String ((Ascii (false, true, false, false, true, true, true,
+    false)), (String ((Ascii (true, false, false, false, false, true, true,
+    false)), EmptyString)))))))))), (String ((Ascii (false, true, true,
+    false, true, false, true, false)), EmptyString))), (S O)) :: ((((String
+    ((Ascii (true, false, true, false, false, true, true, false)), (String
+    ((Ascii (false, false, false, true, true, true, true, false)), (String
+    ((Ascii (false, false, true, false, true, true, true, false)), (String
+    ((Ascii (false, true, false, false, true, true, true, false)), (String
+    ((Ascii (true, false, false, false, false, true, true, false)),
+    EmptyString)))))))))), (String ((Ascii (true, true, false, false, true,
+    false, true, false)), EmptyString))), (S O)) :: ((((String ((Ascii (true,
+    false, true, false, false, true, true, false)), (String ((Ascii (false,
+    false, false, true, true, true, true, false)), (String ((Ascii (false,
+    false, true, false, true, true, true, false)), (String ((Ascii (false,
+    true, false, false, true, true, true, false)), (String ((Ascii (true,
+    false, false, false, false, true, true, false)), EmptyString)))))))))),
+    (String ((Ascii (false, false, false, false, true, false, true, false)),
+    (String ((Ascii (false, false, true, false, true, false, true, false)),
+    (String ((Ascii (false, false, false, true, false, false, true, false)),
+    EmptyString))))))), (S (S (S O)))) :: []))))))))))))))))))))))))))))))))
+
+(** val header_tail : string **)
+
+let header_tail =
+  String ((Ascii (false, false, true, true, false, false, true, false)),
+    (String ((Ascii (true, true, false, false, false, false, true, false)),
+    EmptyString)))
+
+(** val separator_tail : string **)
+
+let separator_tail =
+  String ((Ascii (true, false, true, true, false, true, false, false)),
+    (String ((Ascii (true, false, true, true, false, true, false, false)),
+    EmptyString)))
+
+(** val wake_table : ((n * n) * n) list **)
+
+let wake_table =
+  (((Npos (XO (XO XH))), (Npos XH)), (Npos (XO (XO (XI (XI (XO (XO
+    XH)))))))) :: ((((Npos (XO (XO XH))), (Npos (XO XH))), (Npos (XI (XI (XO
+    (XO (XI (XO XH)))))))) :: ((((Npos (XO (XO XH))), (Npos (XI XH))), (Npos
+    (XI (XO (XI (XI (XO (XO XH)))))))) :: ((((Npos (XO (XO XH))), (Npos (XO
+    (XO XH)))), (Npos (XO (XO (XO (XI (XO (XO XH)))))))) :: ((((Npos (XO (XO
+    XH))), (Npos (XI (XO XH)))), (Npos (XO (XI (XO (XI (XO (XO
+    XH)))))))) :: ((((Npos (XO (XO XH))), (Npos (XI (XI XH)))), (Npos (XO (XI
+    (XO (XO (XI (XO XH)))))))) :: [])))))
+
 (** val ma_go : n list -> (nat * n) list -> n -> n -> n res **)
 
 let rec ma_go m bs i acc =
@@ -4255,6 +4690,23 @@ let ais m =
                           (filter (fun c ->
                             negb (N.eqb c (Npos (XO (XO (XO (XO (XO XH))))))))
                             (map ia5 cs)))))))))))))))
+
+(** val wake_lookup : ((n * n) * n) list -> (n * n) -> n option **)
+
+let rec wake_lookup t vc =
+  match t with
+  | [] -> None
+  | p :: t' ->
+    let (p0, c) = p in
+    let (a, b) = p0 in
+    if (&&) (N.eqb a (fst vc)) (N.eqb b (snd vc))
+    then Some c
+    else wake_lookup t' vc
+
+(** val get_wake_turbulence_category : (n * n) -> n option **)
+
+let get_wake_turbulence_category vc =
+  wake_lookup wake_table vc
 
 (** val threat_encounter : n list -> n option res **)
 
@@ -11349,6 +11801,208 @@ let read_lines o now t bs =
     (run_lines o now { tbl = t; cnt = (counters_new now o.update_s) }
       (text_lines bs)) (fun s -> Ok s.tbl)
 
+(** val insert_by : ('a1 -> z) -> 'a1 -> 'a1 list -> 'a1 list **)
+
+let rec insert_by key x l = match l with
+| [] -> x :: []
+| y :: t -> if Z.ltb (key x) (key y) then x :: l else y :: (insert_by key x t)
+
+(** val stable_sort : ('a1 -> z) -> 'a1 list -> 'a1 list **)
+
+let stable_sort key l =
+  fold_left (fun acc x -> insert_by key x acc) l []
+
+(** val qtrunc : q -> z **)
+
+let qtrunc q0 =
+  Z.quot q0.qnum (Zpos q0.qden)
+
+(** val okey : n option -> z **)
+
+let okey = function
+| Some v -> Z.of_N v
+| None -> Zneg XH
+
+type sort_action =
+| SortBy of (row -> z) * bool
+| NoSort
+
+(** val sort_action_of : (row -> z) -> n -> sort_action **)
+
+let sort_action_of dkey = function
+| N0 -> NoSort
+| Npos p ->
+  (match p with
+   | XI p0 ->
+     (match p0 with
+      | XI p1 ->
+        (match p1 with
+         | XI p2 ->
+           (match p2 with
+            | XO p3 ->
+              (match p3 with
+               | XI p4 ->
+                 (match p4 with
+                  | XO p5 ->
+                    (match p5 with
+                     | XH -> SortBy ((fun r -> qtrunc r.lon), false)
+                     | _ -> NoSort)
+                  | _ -> NoSort)
+               | _ -> NoSort)
+            | _ -> NoSort)
+         | XO p2 ->
+           (match p2 with
+            | XO p3 ->
+              (match p3 with
+               | XI p4 ->
+                 (match p4 with
+                  | XI p5 ->
+                    (match p5 with
+                     | XH -> SortBy ((fun r -> okey r.r_squawk), false)
+                     | _ -> NoSort)
+                  | XO p5 ->
+                    (match p5 with
+                     | XH -> SortBy ((fun r -> Z.opp (qtrunc r.lat)), false)
+                     | _ -> NoSort)
+                  | XH -> NoSort)
+               | XO p4 ->
+                 (match p4 with
+                  | XI p5 ->
+                    (match p5 with
+                     | XH ->
+                       SortBy ((fun r ->
+                         Z.add
+                           (Z.mul (Z.of_N (fst r.category)) (Zpos (XO (XO (XO
+                             (XO (XO (XO (XO (XO (XO (XO (XO (XO (XO (XO (XO
+                             (XO (XO (XO (XO (XO (XO (XO (XO (XO (XO (XO (XO
+                             (XO (XO (XO (XO (XO
+                             XH))))))))))))))))))))))))))))))))))
+                           (Z.of_N (snd r.category))), false)
+                     | _ -> NoSort)
+                  | XO p5 ->
+                    (match p5 with
+                     | XH ->
+                       SortBy ((fun r ->
+                         Z.opp
+                           (Z.of_N
+                             (N.coq_lor (N.shiftl (fst r.category) (Npos XH))
+                               (snd r.category)))), false)
+                     | _ -> NoSort)
+                  | XH -> NoSort)
+               | XH -> NoSort)
+            | _ -> NoSort)
+         | XH -> NoSort)
+      | XO p1 ->
+        (match p1 with
+         | XI p2 ->
+           (match p2 with
+            | XO p3 ->
+              (match p3 with
+               | XO p4 ->
+                 (match p4 with
+                  | XO p5 ->
+                    (match p5 with
+                     | XH -> SortBy ((fun r -> Z.opp (qtrunc r.lon)), false)
+                     | _ -> NoSort)
+                  | _ -> NoSort)
+               | _ -> NoSort)
+            | _ -> NoSort)
+         | XO p2 ->
+           (match p2 with
+            | XO p3 ->
+              (match p3 with
+               | XO p4 ->
+                 (match p4 with
+                  | XI p5 ->
+                    (match p5 with
+                     | XH -> SortBy ((fun r -> okey r.r_altitude), false)
+                     | _ -> NoSort)
+                  | XO p5 ->
+                    (match p5 with
+                     | XH -> SortBy ((fun r -> okey r.r_altitude), true)
+                     | _ -> NoSort)
+                  | XH -> NoSort)
+               | _ -> NoSort)
+            | _ -> NoSort)
+         | XH -> NoSort)
+      | XH -> NoSort)
+   | XO p0 ->
+     (match p0 with
+      | XI p1 ->
+        (match p1 with
+         | XI p2 ->
+           (match p2 with
+            | XI p3 ->
+              (match p3 with
+               | XO p4 ->
+                 (match p4 with
+                  | XO p5 ->
+                    (match p5 with
+                     | XH -> SortBy ((fun r -> qtrunc r.lat), false)
+                     | _ -> NoSort)
+                  | _ -> NoSort)
+               | _ -> NoSort)
+            | XO p3 ->
+              (match p3 with
+               | XI p4 ->
+                 (match p4 with
+                  | XI p5 ->
+                    (match p5 with
+                     | XH ->
+                       SortBy ((fun r ->
+                         match r.vrate with
+                         | Some v -> v
+                         | None -> Z0), false)
+                     | _ -> NoSort)
+                  | XO p5 ->
+                    (match p5 with
+                     | XH ->
+                       SortBy ((fun r ->
+                         Z.opp (match r.vrate with
+                                | Some v -> v
+                                | None -> Z0)), false)
+                     | _ -> NoSort)
+                  | XH -> NoSort)
+               | _ -> NoSort)
+            | XH -> NoSort)
+         | _ -> NoSort)
+      | XO p1 ->
+        (match p1 with
+         | XI p2 ->
+           (match p2 with
+            | XO p3 ->
+              (match p3 with
+               | XO p4 ->
+                 (match p4 with
+                  | XI p5 ->
+                    (match p5 with
+                     | XH -> SortBy (dkey, false)
+                     | _ -> NoSort)
+                  | XO p5 ->
+                    (match p5 with
+                     | XH -> SortBy (dkey, true)
+                     | _ -> NoSort)
+                  | XH -> NoSort)
+               | _ -> NoSort)
+            | _ -> NoSort)
+         | _ -> NoSort)
+      | XH -> NoSort)
+   | XH -> NoSort)
+
+(** val apply_sort : (row -> z) -> (n * row) list -> n -> (n * row) list **)
+
+let apply_sort dkey l c =
+  match sort_action_of dkey c with
+  | SortBy (key, rv) ->
+    let s = stable_sort (fun p -> key (snd p)) l in if rv then rev s else s
+  | NoSort -> l
+
+(** val print_order : (row -> z) -> n list list -> table -> (n * row) list **)
+
+let print_order dkey order_by0 t =
+  fold_left (apply_sort dkey) (concat order_by0)
+    (stable_sort (fun p -> Z.of_N (fst p)) t)
+
 type bytes = n list
 
 (** val str : string -> bytes **)
@@ -14557,3 +15211,614 @@ let run_case line =
              app id0
                (app ((Npos (XI (XO (XO XH)))) :: [])
                  (app oc (app ((Npos (XI (XO (XO XH)))) :: []) obs))))))
+
+(** val spaces : nat -> bytes **)
+
+let spaces n0 =
+  repeat (Npos (XO (XO (XO (XO (XO XH)))))) n0
+
+(** val pad_left : nat -> bytes -> bytes **)
+
+let pad_left w s =
+  app (spaces (sub w (length s))) s
+
+(** val pad_right : nat -> bytes -> bytes **)
+
+let pad_right w s =
+  app s (spaces (sub w (length s)))
+
+(** val zero_pad : nat -> bytes -> bytes **)
+
+let zero_pad w s =
+  app (repeat (Npos (XO (XO (XO (XO (XI XH)))))) (sub w (length s))) s
+
+(** val round_half_even : q -> z **)
+
+let round_half_even q0 =
+  let f = qfloor q0 in
+  let r = qminus q0 { qnum = f; qden = XH } in
+  (match qcompare r { qnum = (Zpos XH); qden = (XO XH) } with
+   | Eq -> if Z.even f then f else Z.add f (Zpos XH)
+   | Lt -> f
+   | Gt -> Z.add f (Zpos XH))
+
+(** val fmt_fixed : nat -> q -> bytes **)
+
+let fmt_fixed p q0 =
+  let scale = Z.pow (Zpos (XO (XI (XO XH)))) (Z.of_nat p) in
+  let neg = qlt_bool q0 { qnum = Z0; qden = XH } in
+  let a = qabs q0 in
+  let n0 = round_half_even (qmult a { qnum = scale; qden = XH }) in
+  let ip = Z.div n0 scale in
+  let fp = Z.modulo n0 scale in
+  let body =
+    app (decz ip)
+      (match p with
+       | O -> []
+       | S _ ->
+         app ((Npos (XO (XI (XI (XI (XO XH)))))) :: []) (zero_pad p (decz fp)))
+  in
+  if neg then (Npos (XI (XO (XI (XI (XO XH)))))) :: body else body
+
+(** val has_flag : opts -> n -> bool **)
+
+let has_flag o c =
+  existsb (fun x -> N.eqb x c) o.display_info
+
+(** val fl_weather : opts -> bool **)
+
+let fl_weather o =
+  has_flag o (Npos (XI (XI (XI (XO (XI (XI XH)))))))
+
+(** val fl_angles : opts -> bool **)
+
+let fl_angles o =
+  has_flag o (Npos (XI (XO (XO (XO (XO (XI XH)))))))
+
+(** val fl_speed : opts -> bool **)
+
+let fl_speed o =
+  has_flag o (Npos (XI (XI (XO (XO (XI (XI XH)))))))
+
+(** val fl_altitude : opts -> bool **)
+
+let fl_altitude o =
+  has_flag o (Npos (XI (XO (XO (XO (XO (XO XH)))))))
+
+(** val fl_extra : opts -> bool **)
+
+let fl_extra o =
+  has_flag o (Npos (XI (XO (XI (XO (XO (XI XH)))))))
+
+(** val group_on : opts -> string -> bool **)
+
+let group_on o g =
+  if eqb1 g EmptyString
+  then true
+  else if eqb1 g (String ((Ascii (true, false, false, false, false, true,
+            true, false)), (String ((Ascii (false, false, true, true, false,
+            true, true, false)), (String ((Ascii (false, false, true, false,
+            true, true, true, false)), (String ((Ascii (true, false, false,
+            true, false, true, true, false)), (String ((Ascii (false, false,
+            true, false, true, true, true, false)), (String ((Ascii (true,
+            false, true, false, true, true, true, false)), (String ((Ascii
+            (false, false, true, false, false, true, true, false)), (String
+            ((Ascii (true, false, true, false, false, true, true, false)),
+            EmptyString))))))))))))))))
+       then fl_altitude o
+       else if eqb1 g (String ((Ascii (true, true, false, false, true, true,
+                 true, false)), (String ((Ascii (false, false, false, false,
+                 true, true, true, false)), (String ((Ascii (true, false,
+                 true, false, false, true, true, false)), (String ((Ascii
+                 (true, false, true, false, false, true, true, false)),
+                 (String ((Ascii (false, false, true, false, false, true,
+                 true, false)), EmptyString))))))))))
+            then fl_speed o
+            else if eqb1 g (String ((Ascii (true, false, false, false, false,
+                      true, true, false)), (String ((Ascii (false, true,
+                      true, true, false, true, true, false)), (String ((Ascii
+                      (true, true, true, false, false, true, true, false)),
+                      (String ((Ascii (false, false, true, true, false, true,
+                      true, false)), (String ((Ascii (true, false, true,
+                      false, false, true, true, false)), (String ((Ascii
+                      (true, true, false, false, true, true, true, false)),
+                      EmptyString))))))))))))
+                 then fl_angles o
+                 else if eqb1 g (String ((Ascii (true, true, true, false,
+                           true, true, true, false)), (String ((Ascii (true,
+                           false, true, false, false, true, true, false)),
+                           (String ((Ascii (true, false, false, false, false,
+                           true, true, false)), (String ((Ascii (false,
+                           false, true, false, true, true, true, false)),
+                           (String ((Ascii (false, false, false, true, false,
+                           true, true, false)), (String ((Ascii (true, false,
+                           true, false, false, true, true, false)), (String
+                           ((Ascii (false, true, false, false, true, true,
+                           true, false)), EmptyString))))))))))))))
+                      then fl_weather o
+                      else if eqb1 g (String ((Ascii (true, false, true,
+                                false, false, true, true, false)), (String
+                                ((Ascii (false, false, false, true, true,
+                                true, true, false)), (String ((Ascii (false,
+                                false, true, false, true, true, true,
+                                false)), (String ((Ascii (false, true, false,
+                                false, true, true, true, false)), (String
+                                ((Ascii (true, false, false, false, false,
+                                true, true, false)), EmptyString))))))))))
+                           then fl_extra o
+                           else false
+
+(** val header_line : opts -> bytes **)
+
+let header_line o =
+  app
+    (concat
+      (map (fun pat ->
+        let (y, w) = pat in
+        let (g, name) = y in
+        if group_on o g
+        then app (pad_left w (str name)) ((Npos (XO (XO (XO (XO (XO
+               XH)))))) :: [])
+        else []) header_cols)) (str header_tail)
+
+(** val separator_line : opts -> bytes **)
+
+let separator_line o =
+  app
+    (concat
+      (map (fun pat ->
+        let (y, w) = pat in
+        let (g, _) = y in
+        if group_on o g
+        then app (repeat (Npos (XI (XO (XI (XI (XO XH)))))) w) ((Npos (XO (XO
+               (XO (XO (XO XH)))))) :: [])
+        else []) header_cols)) (str separator_tail)
+
+(** val cell_oN : nat -> n option -> bytes **)
+
+let cell_oN w = function
+| Some x ->
+  app (pad_left w (dec x)) ((Npos (XO (XO (XO (XO (XO XH)))))) :: [])
+| None -> app (spaces w) ((Npos (XO (XO (XO (XO (XO XH)))))) :: [])
+
+(** val cell_oZ : nat -> z option -> bytes **)
+
+let cell_oZ w = function
+| Some x ->
+  app (pad_left w (decz x)) ((Npos (XO (XO (XO (XO (XO XH)))))) :: [])
+| None -> app (spaces w) ((Npos (XO (XO (XO (XO (XO XH)))))) :: [])
+
+(** val age10 : z -> z option -> bytes **)
+
+let age10 now = function
+| Some t0 ->
+  (hexdigit
+    (Z.to_N
+      (Z.coq_land (Z.quot (num_seconds now t0) (Zpos (XO (XI (XO XH)))))
+        (Zpos (XI (XI (XI XH))))))) :: []
+| None -> (Npos (XO (XO (XO (XO (XO XH)))))) :: []
+
+(** val render_row : opts -> z -> (row -> bytes) -> row -> bytes **)
+
+let render_row o now dcell r =
+  app
+    (zero_pad (S (S (S (S (S (S O))))))
+      (hex_go (S (S (S (S (S (S O)))))) r.icao []))
+    (app ((Npos (XO (XO (XO (XO (XO XH)))))) :: [])
+      (app (pad_right (S (S O)) (str r.reg))
+        (app ((Npos (XO (XO (XO (XO (XO XH)))))) :: [])
+          (app
+            (match r.r_squawk with
+             | Some s -> zero_pad (S (S (S (S O)))) (dec s)
+             | None -> spaces (S (S (S (S O)))))
+            (app
+              (match r.threat with
+               | Some c -> c :: []
+               | None -> (Npos (XO (XO (XO (XO (XO XH)))))) :: [])
+              (app
+                (match get_wake_turbulence_category r.category with
+                 | Some w -> w :: ((Npos (XO (XO (XO (XO (XO XH)))))) :: [])
+                 | None ->
+                   (Npos (XO (XO (XO (XO (XO XH)))))) :: ((Npos (XO (XO (XO
+                     (XO (XO XH)))))) :: []))
+                (app
+                  (match r.r_ais with
+                   | Some a ->
+                     app (pad_right (S (S (S (S (S (S (S (S O)))))))) a)
+                       ((Npos (XO (XO (XO (XO (XO XH)))))) :: [])
+                   | None ->
+                     app (spaces (S (S (S (S (S (S (S (S O))))))))) ((Npos
+                       (XO (XO (XO (XO (XO XH)))))) :: []))
+                  (app
+                    (if (&&) (negb (qeq_bool r.lat { qnum = Z0; qden = XH }))
+                          (negb (qeq_bool r.lon { qnum = Z0; qden = XH }))
+                     then app
+                            (pad_left (S (S (S (S (S (S (S (S (S O)))))))))
+                              (fmt_fixed (S (S (S (S (S O))))) r.lat))
+                            (app ((Npos (XO (XO (XO (XO (XO XH)))))) :: [])
+                              (app
+                                (pad_left (S (S (S (S (S (S (S (S (S (S (S
+                                  O)))))))))))
+                                  (fmt_fixed (S (S (S (S (S O))))) r.lon))
+                                ((Npos (XO (XO (XO (XO (XO XH)))))) :: [])))
+                     else app (spaces (S (S (S (S (S (S (S (S (S O))))))))))
+                            (app ((Npos (XO (XO (XO (XO (XO XH)))))) :: [])
+                              (app
+                                (spaces (S (S (S (S (S (S (S (S (S (S (S
+                                  O)))))))))))) ((Npos (XO (XO (XO (XO (XO
+                                XH)))))) :: []))))
+                    (app
+                      (match r.dist with
+                       | Some _ ->
+                         app (pad_left (S (S (S (S (S O))))) (dcell r))
+                           ((Npos (XO (XO (XO (XO (XO XH)))))) :: [])
+                       | None ->
+                         app (spaces (S (S (S (S (S O)))))) ((Npos (XO (XO
+                           (XO (XO (XO XH)))))) :: []))
+                      (app
+                        (match r.r_altitude with
+                         | Some a ->
+                           app (pad_left (S (S (S (S (S O))))) (dec a))
+                             (r.altitude_source :: [])
+                         | None ->
+                           app (spaces (S (S (S (S (S O)))))) ((Npos (XO (XO
+                             (XO (XO (XO XH)))))) :: []))
+                        (app
+                          (if fl_altitude o
+                           then app
+                                  (cell_oN (S (S (S (S (S O)))))
+                                    r.altitude_gnss_)
+                                  (app
+                                    (match r.selected_altitude with
+                                     | Some a ->
+                                       app
+                                         (pad_left (S (S (S (S (S O)))))
+                                           (dec a))
+                                         (r.target_alt_source :: [])
+                                     | None ->
+                                       app (spaces (S (S (S (S (S O))))))
+                                         ((Npos (XO (XO (XO (XO (XO
+                                         XH)))))) :: []))
+                                    (cell_oN (S (S (S (S O)))) r.baro_setting))
+                           else [])
+                          (app
+                            (match r.vrate with
+                             | Some v ->
+                               app (pad_left (S (S (S (S (S O))))) (decz v))
+                                 (r.vrate_source :: [])
+                             | None -> spaces (S (S (S (S (S (S O)))))))
+                            (app
+                              (match r.track with
+                               | Some v ->
+                                 app (pad_left (S (S (S O))) (dec v))
+                                   (r.track_source :: [])
+                               | None -> spaces (S (S (S (S O)))))
+                              (app
+                                (match r.r_heading with
+                                 | Some v ->
+                                   app (pad_left (S (S (S O))) (dec v))
+                                     (r.heading_source :: [])
+                                 | None -> spaces (S (S (S (S O)))))
+                                (app (cell_oN (S (S (S O))) r.grspeed)
+                                  (app
+                                    (if fl_speed o
+                                     then app
+                                            (cell_oN (S (S (S O)))
+                                              r.true_airspeed)
+                                            (app
+                                              (cell_oN (S (S (S O)))
+                                                r.indicated_airspeed)
+                                              (match r.mach with
+                                               | Some q0 ->
+                                                 app
+                                                   (pad_left (S (S (S (S
+                                                     O))))
+                                                     (fmt_fixed (S (S O)) q0))
+                                                   ((Npos (XO (XO (XO (XO (XO
+                                                   XH)))))) :: [])
+                                               | None ->
+                                                 app
+                                                   (spaces (S (S (S (S O)))))
+                                                   ((Npos (XO (XO (XO (XO (XO
+                                                   XH)))))) :: [])))
+                                     else [])
+                                    (app
+                                      (if fl_angles o
+                                       then app
+                                              (cell_oZ (S (S (S O)))
+                                                r.roll_angle)
+                                              (cell_oZ (S (S (S O)))
+                                                r.track_angle_rate)
+                                       else [])
+                                      (app
+                                        (if fl_weather o
+                                         then app
+                                                (match r.temperature with
+                                                 | Some q0 ->
+                                                   app
+                                                     (pad_left (S (S (S (S (S
+                                                       O)))))
+                                                       (fmt_fixed (S O) q0))
+                                                     ((Npos (XO (XO (XO (XO
+                                                     (XO XH)))))) :: [])
+                                                 | None ->
+                                                   app
+                                                     (spaces (S (S (S (S (S
+                                                       O)))))) ((Npos (XO (XO
+                                                     (XO (XO (XO
+                                                     XH)))))) :: []))
+                                                (app
+                                                  (match r.wind with
+                                                   | Some p ->
+                                                     let (a, b) = p in
+                                                     app
+                                                       (pad_left (S (S (S
+                                                         O))) (dec a))
+                                                       (app ((Npos (XO (XO
+                                                         (XO (XO (XO
+                                                         XH)))))) :: [])
+                                                         (app
+                                                           (pad_left (S (S (S
+                                                             O))) (dec b))
+                                                           ((Npos (XO (XO (XO
+                                                           (XO (XO
+                                                           XH)))))) :: [])))
+                                                   | None ->
+                                                     app
+                                                       (spaces (S (S (S (S (S
+                                                         (S (S O))))))))
+                                                       ((Npos (XO (XO (XO (XO
+                                                       (XO XH)))))) :: []))
+                                                  (app
+                                                    (cell_oN (S (S (S O)))
+                                                      r.humidity)
+                                                    (app
+                                                      (cell_oN (S (S (S (S
+                                                        O)))) r.pressure)
+                                                      (cell_oN (S (S O))
+                                                        r.turbulence))))
+                                         else [])
+                                        (app
+                                          (if fl_extra o
+                                           then app (dec (fst r.category))
+                                                  (app (dec (snd r.category))
+                                                    (app ((Npos (XO (XO (XO
+                                                      (XO (XO XH)))))) :: [])
+                                                      (app
+                                                        (if negb
+                                                              (N.eqb
+                                                                r.last_df N0)
+                                                         then app
+                                                                (pad_left (S
+                                                                  (S O))
+                                                                  (dec
+                                                                    r.last_df))
+                                                                ((Npos (XO
+                                                                (XO (XO (XO
+                                                                (XO
+                                                                XH)))))) :: [])
+                                                         else app
+                                                                (spaces (S (S
+                                                                  O))) ((Npos
+                                                                (XO (XO (XO
+                                                                (XO (XO
+                                                                XH)))))) :: []))
+                                                        (app
+                                                          (if negb
+                                                                (N.eqb
+                                                                  r.last_tc
+                                                                  N0)
+                                                           then app
+                                                                  (pad_left
+                                                                    (S (S O))
+                                                                    (dec
+                                                                    r.last_tc))
+                                                                  ((Npos (XO
+                                                                  (XO (XO (XO
+                                                                  (XO
+                                                                  XH)))))) :: [])
+                                                           else app
+                                                                  (spaces (S
+                                                                    (S O)))
+                                                                  ((Npos (XO
+                                                                  (XO (XO (XO
+                                                                  (XO
+                                                                  XH)))))) :: []))
+                                                          (app
+                                                            (match r.adsb_version with
+                                                             | Some v ->
+                                                               app
+                                                                 (pad_right
+                                                                   (S O)
+                                                                   (dec v))
+                                                                 ((Npos (XO
+                                                                 (XO (XO (XO
+                                                                 (XO
+                                                                 XH)))))) :: [])
+                                                             | None ->
+                                                               (Npos (XO (XO
+                                                                 (XO (XO (XO
+                                                                 XH)))))) :: ((Npos
+                                                                 (XO (XO (XO
+                                                                 (XO (XO
+                                                                 XH)))))) :: []))
+                                                            (app
+                                                              (r.surv_status :: ((Npos
+                                                              (XO (XO (XO (XO
+                                                              (XO
+                                                              XH)))))) :: []))
+                                                              (app
+                                                                (age10 now
+                                                                  r.position_t)
+                                                                (app
+                                                                  (age10 now
+                                                                    r.track_t)
+                                                                  (match r.heading_t with
+                                                                   | Some _ ->
+                                                                    app
+                                                                    (age10
+                                                                    now
+                                                                    r.heading_t)
+                                                                    ((Npos
+                                                                    (XO (XO
+                                                                    (XO (XO
+                                                                    (XO
+                                                                    XH)))))) :: [])
+                                                                   | None ->
+                                                                    (Npos (XO
+                                                                    (XO (XO
+                                                                    (XO (XO
+                                                                    XH)))))) :: ((Npos
+                                                                    (XO (XO
+                                                                    (XO (XO
+                                                                    (XO
+                                                                    XH)))))) :: []))))))))))
+                                           else [])
+                                          (pad_left (S (S O))
+                                            (decz
+                                              (num_seconds now r.timestamp))))))))))))))))))))))
+
+(** val counter_line : counters -> bytes **)
+
+let counter_line c =
+  concat
+    (map (fun pat ->
+      let (df, n0) = pat in
+      app
+        (str (String ((Ascii (false, false, true, false, false, false, true,
+          false)), (String ((Ascii (false, true, true, false, false, false,
+          true, false)), EmptyString)))))
+        (app (dec df)
+          (app ((Npos (XO (XI (XO (XI (XI XH)))))) :: [])
+            (app (decz n0) ((Npos (XO (XO (XO (XO (XO XH)))))) :: [])))))
+      c.df_count)
+
+(** val render_frame :
+    opts -> z -> (row -> z) -> (row -> bytes) -> state -> bytes list **)
+
+let render_frame o now dkey dcell s =
+  app ((header_line o) :: ((separator_line o) :: []))
+    (app
+      (map (fun p -> render_row o now dcell (snd p))
+        (print_order dkey o.order_by s.tbl))
+      (app ((separator_line o) :: [])
+        (if o.count_df then (counter_line s.cnt) :: [] else [])))
+
+(** val run_cli_lines :
+    opts -> z -> state -> n list option list -> bytes list list -> bytes list
+    list res **)
+
+let rec run_cli_lines o now s ls acc =
+  match ls with
+  | [] -> Ok (rev_append acc [])
+  | l :: t ->
+    bind (step o now s l) (fun pat ->
+      let (p, _) = pat in
+      let (s', refresh) = p in
+      run_cli_lines o now s' t
+        (if refresh
+         then (render_frame o now (fun _ -> Z0) (fun _ ->
+                str (String ((Ascii (true, true, true, true, true, true,
+                  false, false)), (String ((Ascii (true, true, true, true,
+                  true, true, false, false)), (String ((Ascii (true, true,
+                  true, true, true, true, false, false)), (String ((Ascii
+                  (true, true, true, true, true, true, false, false)),
+                  (String ((Ascii (true, true, true, true, true, true, false,
+                  false)), EmptyString))))))))))) s') :: acc
+         else acc))
+
+(** val run_cli : opts -> z -> bytes -> bytes list list res **)
+
+let run_cli o now bs =
+  run_cli_lines o now { tbl = []; cnt = (counters_new now o.update_s) }
+    (text_lines bs) []
+
+(** val run_c : opts -> bytes -> bytes * bytes **)
+
+let run_c o body =
+  match split_on (Npos (XO (XI (XO (XI (XI XH)))))) body [] with
+  | [] ->
+    ((str (String ((Ascii (true, true, false, false, true, true, true,
+       false)), (String ((Ascii (true, true, false, true, false, true, true,
+       false)), (String ((Ascii (true, false, false, true, false, true, true,
+       false)), (String ((Ascii (false, false, false, false, true, true,
+       true, false)), EmptyString))))))))), [])
+  | _ :: l ->
+    (match l with
+     | [] ->
+       ((str (String ((Ascii (true, true, false, false, true, true, true,
+          false)), (String ((Ascii (true, true, false, true, false, true,
+          true, false)), (String ((Ascii (true, false, false, true, false,
+          true, true, false)), (String ((Ascii (false, false, false, false,
+          true, true, true, false)), EmptyString))))))))), [])
+     | rest :: _ ->
+       (match run_cli o Z0 (seg_bytes rest) with
+        | Ok frames ->
+          ((str (String ((Ascii (true, true, true, true, false, true, true,
+             false)), (String ((Ascii (true, true, false, true, false, true,
+             true, false)), EmptyString))))),
+            (join ((Npos (XO (XI (XI (XI XH))))) :: [])
+              (map (join ((Npos (XI (XO (XI (XI XH))))) :: [])) frames)))
+        | Panic _ ->
+          ((str (String ((Ascii (false, false, false, false, true, true,
+             true, false)), (String ((Ascii (true, false, false, false,
+             false, true, true, false)), (String ((Ascii (false, true, true,
+             true, false, true, true, false)), (String ((Ascii (true, false,
+             false, true, false, true, true, false)), (String ((Ascii (true,
+             true, false, false, false, true, true, false)),
+             EmptyString))))))))))), [])))
+
+(** val run_case2 : bytes -> bytes **)
+
+let run_case2 line =
+  match split (Npos (XI (XO (XO XH)))) line with
+  | [] -> []
+  | id0 :: l ->
+    (match l with
+     | [] -> []
+     | kind :: l0 ->
+       (match l0 with
+        | [] -> []
+        | os :: l1 ->
+          (match l1 with
+           | [] -> []
+           | body :: _ ->
+             (match kind with
+              | [] -> run_case line
+              | n0 :: l2 ->
+                (match n0 with
+                 | N0 -> run_case line
+                 | Npos p ->
+                   (match p with
+                    | XI p0 ->
+                      (match p0 with
+                       | XI p1 ->
+                         (match p1 with
+                          | XO p2 ->
+                            (match p2 with
+                             | XO p3 ->
+                               (match p3 with
+                                | XO p4 ->
+                                  (match p4 with
+                                   | XO p5 ->
+                                     (match p5 with
+                                      | XH ->
+                                        (match l2 with
+                                         | [] ->
+                                           let (oc, obs) =
+                                             run_c (parse_opts os) body
+                                           in
+                                           app id0
+                                             (app ((Npos (XI (XO (XO
+                                               XH)))) :: [])
+                                               (app oc
+                                                 (app ((Npos (XI (XO (XO
+                                                   XH)))) :: []) obs)))
+                                         | _ :: _ -> run_case line)
+                                      | _ -> run_case line)
+                                   | _ -> run_case line)
+                                | _ -> run_case line)
+                             | _ -> run_case line)
+                          | _ -> run_case line)
+                       | _ -> run_case line)
+                    | _ -> run_case line))))))
